@@ -1,14 +1,495 @@
-//! Suite `listen` (stub: replaced by the owner of the suite).
+//! Suite `listen`: the REAL `varlink::listen` on real sockets (C13, C15; also the
+//! socket half of C01/C02: the per-connection worker closure of server.rs).
+//!
+//! Concurrency mode (C13):
+//!   (listen-conc <transport> <initial> <svc> (clients <client>*))
+//!     transport = unix | abstract | tcp
+//!     client    = (client <kind> <start-ms> (chunks b<chunk>*) <dec>)
+//!     kind      = half      send all chunks (small pauses), half-close, read to EOF
+//!               | dropmid   like half (the stream ends in the middle of a message)
+//!               | idle      connect, send nothing, close after a while
+//!   Observation: (obs (c <closed> (out <reply>*) b<upgraded-echo> <ref>)*) one `c` per client, where
+//!   <ref> = the in-memory reference (handle() on the same bytes, fresh service).
+//!
+//! Timing mode (C15):
+//!   (listen-timing <idle-s> <stop> <initial> <max> (conns (conn <at-ms> <hold-ms>)*))
+//!     stop = - | <set-at-ms>
+//!   Observation: (tobs <result> <return-ms> <socket-removed> (c <accepted-ms> <complete> <closed-ms>)*)
+//!     result = ok | timeout | err
+use crate::rng::Rng;
+use crate::suites::wire::{self, build_service_opts, configs, dec_table, gen_request, split_replies, stream_of, SvcCfg};
 use crate::sx::{self, Sx};
 use crate::{Case, Ctx, Suite};
+use std::io::{Read, Write};
+use std::net::{Shutdown, TcpStream};
+use std::os::unix::net::UnixStream;
+use std::sync::atomic::{AtomicBool, AtomicUsize, Ordering};
+use std::sync::Arc;
+use std::thread;
+use std::time::{Duration, Instant};
+use varlink::ConnectionHandler;
 
 pub struct ListenSuite;
 
-impl Suite for ListenSuite {
-    fn generate(&self, _ctx: &Ctx) -> Vec<Case> {
-        Vec::new()
+static COUNTER: AtomicUsize = AtomicUsize::new(0);
+
+fn work_dir() -> String {
+    let d = format!("{}/../work/sock", env!("CARGO_MANIFEST_DIR"));
+    let _ = std::fs::create_dir_all(&d);
+    d
+}
+
+enum Conn {
+    Unix(UnixStream),
+    Tcp(TcpStream),
+}
+
+impl Conn {
+    fn write_all(&mut self, b: &[u8]) -> std::io::Result<()> {
+        match self {
+            Conn::Unix(s) => s.write_all(b),
+            Conn::Tcp(s) => s.write_all(b),
+        }
     }
-    fn run(&self, _ctx: &Ctx, _input: &Sx) -> Sx {
-        sx::atom("stub")
+    fn shutdown_write(&mut self) {
+        let _ = match self {
+            Conn::Unix(s) => s.shutdown(Shutdown::Write),
+            Conn::Tcp(s) => s.shutdown(Shutdown::Write),
+        };
+    }
+    fn set_timeout(&mut self, d: Duration) {
+        let _ = match self {
+            Conn::Unix(s) => s.set_read_timeout(Some(d)),
+            Conn::Tcp(s) => s.set_read_timeout(Some(d)),
+        };
+    }
+    fn read(&mut self, buf: &mut [u8]) -> std::io::Result<usize> {
+        match self {
+            Conn::Unix(s) => s.read(buf),
+            Conn::Tcp(s) => s.read(buf),
+        }
+    }
+}
+
+fn connect(addr: &str) -> Option<Conn> {
+    for _ in 0..200 {
+        let r = if let Some(a) = addr.strip_prefix("tcp:") {
+            TcpStream::connect(a).ok().map(Conn::Tcp)
+        } else if let Some(a) = addr.strip_prefix("unix:@") {
+            use std::os::linux::net::SocketAddrExt;
+            let sa = std::os::unix::net::SocketAddr::from_abstract_name(a).ok()?;
+            UnixStream::connect_addr(&sa).ok().map(Conn::Unix)
+        } else if let Some(a) = addr.strip_prefix("unix:") {
+            UnixStream::connect(a.split(';').next().unwrap()).ok().map(Conn::Unix)
+        } else {
+            None
+        };
+        if r.is_some() {
+            return r;
+        }
+        thread::sleep(Duration::from_millis(10));
+    }
+    None
+}
+
+fn fresh_addr(transport: &str) -> String {
+    let n = COUNTER.fetch_add(1, Ordering::SeqCst);
+    let pid = std::process::id();
+    match transport {
+        "tcp" => {
+            let l = std::net::TcpListener::bind("127.0.0.1:0").unwrap();
+            let p = l.local_addr().unwrap().port();
+            drop(l);
+            format!("tcp:127.0.0.1:{}", p)
+        }
+        "abstract" => format!("unix:@vverif-{}-{}", pid, n),
+        _ => format!("unix:{}/l-{}-{}", work_dir(), pid, n),
+    }
+}
+
+/// split the echo of the upgraded handler (`UP:<bytes>` after the last reply) off the byte stream
+fn split_up(bytes: &[u8]) -> (Vec<u8>, Vec<u8>) {
+    // replies are JSON objects followed by NUL; the echo starts at a message boundary with `UP:`
+    let mut p = 0;
+    loop {
+        if bytes[p..].starts_with(b"UP:") {
+            return (bytes[..p].to_vec(), bytes[p + 3..].to_vec());
+        }
+        match bytes[p..].iter().position(|b| *b == 0) {
+            Some(i) => p += i + 1,
+            None => return (bytes.to_vec(), Vec::new()),
+        }
+        if p >= bytes.len() {
+            return (bytes.to_vec(), Vec::new());
+        }
+    }
+}
+
+fn reference(svc: &Sx, total: &[u8]) -> Sx {
+    let built = build_service_opts(svc, true);
+    let mut out = Vec::new();
+    let mut rd: &[u8] = total;
+    let r = built.service.handle(&mut rd, &mut out, None);
+    // the worker closure: on upgrade, everything after the request goes to the upgraded handler
+    let (status, up): (&str, Vec<u8>) = match &r {
+        Err(_) => ("err", Vec::new()),
+        Ok((_, None)) => ("eof", Vec::new()),
+        Ok((t, Some(_))) => {
+            let mut v = t.clone();
+            v.extend_from_slice(rd);
+            ("up", v)
+        }
+    };
+    sx::tagged("ref", vec![sx::atom(status), sx::tagged("out", split_replies(&out)), sx::bs(&up)])
+}
+
+fn run_conc(l: &[Sx]) -> Sx {
+    let transport = l[1].as_atom().unwrap().to_string();
+    let initial = l[2].as_usize().unwrap();
+    let svc = l[3].clone();
+    let clients: Vec<Sx> = l[4].as_list().unwrap()[1..].to_vec();
+    let addr = fresh_addr(&transport);
+    let stop = Arc::new(AtomicBool::new(false));
+    let built = build_service_opts(&svc, true);
+    let server = {
+        let addr = addr.clone();
+        let stop = stop.clone();
+        let max = clients.len() + 2;
+        thread::spawn(move || {
+            varlink::listen(
+                built.service,
+                &addr,
+                &varlink::ListenConfig {
+                    initial_worker_threads: initial,
+                    max_worker_threads: max,
+                    idle_timeout: 0,
+                    stop_listening: Some(stop),
+                },
+            )
+            .is_ok()
+        })
+    };
+    let mut handles = Vec::new();
+    for c in &clients {
+        let cl = c.as_list().unwrap().to_vec();
+        let addr = addr.clone();
+        handles.push(thread::spawn(move || {
+            let kind = cl[1].as_atom().unwrap().to_string();
+            let start = cl[2].as_usize().unwrap() as u64;
+            let chunks: Vec<Vec<u8>> = cl[3].as_list().unwrap()[1..].iter().map(|x| x.as_bytes().unwrap()).collect();
+            thread::sleep(Duration::from_millis(start));
+            let mut conn = match connect(&addr) {
+                Some(c) => c,
+                None => return (false, Vec::new()),
+            };
+            conn.set_timeout(Duration::from_millis(5000));
+            if kind == "idle" {
+                thread::sleep(Duration::from_millis(30));
+                return (true, Vec::new());
+            }
+            for (i, ch) in chunks.iter().enumerate() {
+                if conn.write_all(ch).is_err() {
+                    break;
+                }
+                if i % 3 == 2 {
+                    thread::sleep(Duration::from_millis(1));
+                } else {
+                    thread::yield_now();
+                }
+            }
+            conn.shutdown_write();
+            let mut got = Vec::new();
+            let mut buf = [0u8; 65536];
+            let mut closed = false;
+            loop {
+                match conn.read(&mut buf) {
+                    Ok(0) => {
+                        closed = true;
+                        break;
+                    }
+                    Ok(n) => got.extend_from_slice(&buf[..n]),
+                    Err(_) => break,
+                }
+            }
+            (closed, got)
+        }));
+    }
+    let mut obs = Vec::new();
+    for (h, c) in handles.into_iter().zip(clients.iter()) {
+        let (closed, got) = h.join().unwrap_or((false, Vec::new()));
+        let cl = c.as_list().unwrap();
+        let total: Vec<u8> = cl[3].as_list().unwrap()[1..].iter().flat_map(|x| x.as_bytes().unwrap()).collect();
+        let (replies, up) = split_up(&got);
+        obs.push(sx::tagged(
+            "c",
+            vec![sx::boolean(closed), sx::tagged("out", split_replies(&replies)), sx::bs(&up), reference(&svc, &total)],
+        ));
+    }
+    stop.store(true, Ordering::SeqCst);
+    let _ = server.join();
+    if let Some(p) = addr.strip_prefix("unix:") {
+        if !p.starts_with('@') {
+            let _ = std::fs::remove_file(p);
+        }
+    }
+    sx::tagged("obs", obs)
+}
+
+fn run_timing(l: &[Sx]) -> Sx {
+    let idle = l[1].as_usize().unwrap() as u64;
+    let stop_at: Option<u64> = l[2].as_usize().map(|x| x as u64);
+    let initial = l[3].as_usize().unwrap();
+    let max = l[4].as_usize().unwrap();
+    let conns: Vec<(u64, u64)> = l[5].as_list().unwrap()[1..]
+        .iter()
+        .map(|c| {
+            let c = c.as_list().unwrap();
+            (c[1].as_usize().unwrap() as u64, c[2].as_usize().unwrap() as u64)
+        })
+        .collect();
+    let addr = fresh_addr("unix");
+    let path = addr.strip_prefix("unix:").unwrap().to_string();
+    let stop = Arc::new(AtomicBool::new(false));
+    let svc = configs().remove(0).sx;
+    let built = build_service_opts(&svc, false);
+    // make sure the socket exists before the clock starts: bind happens inside listen(), so start
+    // the clock when the path appears
+    let t_server = {
+        let addr = addr.clone();
+        let stop = stop.clone();
+        let with_stop = stop_at.is_some();
+        thread::spawn(move || {
+            let r = varlink::listen(
+                built.service,
+                &addr,
+                &varlink::ListenConfig {
+                    initial_worker_threads: initial,
+                    max_worker_threads: max,
+                    idle_timeout: idle,
+                    stop_listening: if with_stop { Some(stop) } else { None },
+                },
+            );
+            let at = Instant::now();
+            let kind = match r {
+                Ok(()) => "ok",
+                Err(e) => match e.kind() {
+                    varlink::ErrorKind::Timeout => "timeout",
+                    _ => "err",
+                },
+            };
+            (kind, at)
+        })
+    };
+    let wait_start = Instant::now();
+    while !std::path::Path::new(&path).exists() && wait_start.elapsed() < Duration::from_secs(3) {
+        thread::sleep(Duration::from_millis(1));
+    }
+    let t0 = Instant::now();
+    if let Some(s) = stop_at {
+        let stop = stop.clone();
+        thread::spawn(move || {
+            thread::sleep(Duration::from_millis(s));
+            stop.store(true, Ordering::SeqCst);
+        });
+    }
+    let mut hs = Vec::new();
+    for (at, hold) in conns.iter().cloned() {
+        let addr = addr.clone();
+        hs.push(thread::spawn(move || {
+            let target = t0 + Duration::from_millis(at);
+            let now = Instant::now();
+            if target > now {
+                thread::sleep(target - now);
+            }
+            let mut conn = match connect(&addr) {
+                Some(c) => c,
+                None => return (0u64, false, false, 0u64),
+            };
+            let accepted = t0.elapsed().as_millis() as u64;
+            conn.set_timeout(Duration::from_millis(8000));
+            let read_reply = |conn: &mut Conn| -> bool {
+                let mut got = Vec::new();
+                let mut b = [0u8; 4096];
+                loop {
+                    match conn.read(&mut b) {
+                        Ok(0) => return false,
+                        Ok(n) => {
+                            got.extend_from_slice(&b[..n]);
+                            if got.last() == Some(&0) {
+                                return serde_json::from_slice::<serde_json::Value>(&got[..got.len() - 1]).is_ok();
+                            }
+                        }
+                        Err(_) => return false,
+                    }
+                }
+            };
+            let first = conn.write_all(b"{\"method\":\"org.varlink.service.GetInfo\"}\0").is_ok() && read_reply(&mut conn);
+            let mut complete = first;
+            let end = t0 + Duration::from_millis(at + hold);
+            let now = Instant::now();
+            if end > now {
+                thread::sleep(end - now);
+            }
+            complete = complete
+                && conn.write_all(b"{\"method\":\"org.varlink.service.GetInterfaceDescription\",\"parameters\":{\"interface\":\"org.varlink.service\"}}\0").is_ok()
+                && read_reply(&mut conn);
+            conn.shutdown_write();
+            let closed = t0.elapsed().as_millis() as u64;
+            (accepted, first, complete, closed)
+        }));
+    }
+    let (kind, at) = t_server.join().unwrap_or(("err", Instant::now()));
+    let ret_ms = at.saturating_duration_since(t0).as_millis() as u64;
+    let removed = !std::path::Path::new(&path).exists();
+    let mut obs = vec![sx::atom(kind), sx::nat(ret_ms as usize), sx::boolean(removed)];
+    for h in hs {
+        let (a, f, c, e) = h.join().unwrap_or((0, false, false, 0));
+        obs.push(sx::list(vec![sx::atom("c"), sx::nat(a as usize), sx::boolean(f), sx::boolean(c), sx::nat(e as usize)]));
+    }
+    let _ = std::fs::remove_file(&path);
+    sx::tagged("tobs", obs)
+}
+
+fn client_sx(kind: &str, start: usize, chunks: &[Vec<u8>], total: &[u8]) -> Sx {
+    let mut cl = vec![sx::atom("chunks")];
+    cl.extend(chunks.iter().map(|c| sx::bs(c)));
+    sx::tagged("client", vec![sx::atom(kind), sx::nat(start), sx::list(cl), dec_table(total)])
+}
+
+fn gen_conc(rng: &mut Rng, cfgs: &[SvcCfg], tok: &mut usize, nclients: usize, transport: &str) -> Case {
+    let cfg = rng.pick(cfgs);
+    let mut clients = Vec::new();
+    let mut tags = vec![format!("transport:{}", transport), format!("clients:{}", match nclients { 1 => "1", 2..=4 => "2-4", 5..=16 => "5-16", _ => "17+" })];
+    for _ in 0..nclients {
+        let kind = match rng.below(10) {
+            0 => "idle",
+            1 => "dropmid",
+            _ => "half",
+        };
+        tags.push(format!("kind:{}", kind));
+        let len = rng.range(1, 8);
+        let mut reqs = Vec::new();
+        for _ in 0..len {
+            *tok += 1;
+            reqs.push(gen_request(rng, cfg, &format!("t{}z", *tok)));
+        }
+        let mut total = stream_of(&reqs);
+        if kind == "dropmid" && total.len() > 3 {
+            let cut = rng.range(1, total.len() - 1);
+            total.truncate(cut);
+        }
+        if rng.chance(1, 8) {
+            // payload for an upgraded handler right behind an upgrade request, same segment
+            *tok += 1;
+            if !cfg.scripts.is_empty() {
+                let name = rng.pick(&cfg.scripts).clone();
+                let v = serde_json::json!({"method": format!("{}.Run", name), "upgrade": true,
+                    "parameters": {"token": format!("t{}z", *tok), "script": [{"op":"upgrade"},{"op":"reply","p":{"token": format!("t{}z", *tok)}}]}});
+                total.extend_from_slice(&serde_json::to_vec(&v).unwrap());
+                total.push(0);
+                total.extend_from_slice(format!("payload-{}-\n\0binary", *tok).as_bytes());
+                tags.push("upgrade-with-payload".into());
+            }
+        }
+        let chunks = if kind == "idle" {
+            Vec::new()
+        } else {
+            let k = rng.range(0, 5);
+            let cuts: Vec<usize> = (0..k).map(|_| rng.below(total.len() + 1)).collect();
+            wire::cut(&total, &cuts)
+        };
+        let total_sent: Vec<u8> = chunks.concat();
+        clients.push(client_sx(kind, rng.below(20), &chunks, &total_sent));
+    }
+    tags.sort();
+    tags.dedup();
+    let mut cl = vec![sx::atom("clients")];
+    cl.extend(clients);
+    Case {
+        input: sx::tagged("listen-conc", vec![sx::atom(transport), sx::nat(rng.range(1, 3)), cfg.sx.clone(), sx::list(cl)]),
+        tags,
+    }
+}
+
+fn timing_case(idle: usize, stop: Option<usize>, initial: usize, max: usize, conns: &[(usize, usize)], tag: &str) -> Case {
+    let mut cl = vec![sx::atom("conns")];
+    for (a, h) in conns {
+        cl.push(sx::list(vec![sx::atom("conn"), sx::nat(*a), sx::nat(*h)]));
+    }
+    Case {
+        input: sx::tagged(
+            "listen-timing",
+            vec![sx::nat(idle), stop.map(sx::nat).unwrap_or_else(|| sx::atom("-")), sx::nat(initial), sx::nat(max), sx::list(cl)],
+        ),
+        tags: vec![format!("timing:{}", tag), format!("idle:{}", idle), format!("stop:{}", if stop.is_some() { "yes" } else { "no" })],
+    }
+}
+
+impl Suite for ListenSuite {
+    fn parallelism(&self, ctx: &Ctx) -> usize {
+        // timing cases spend their time waiting for real seconds
+        if ctx.prop == "C15" {
+            8
+        } else {
+            1
+        }
+    }
+
+    fn generate(&self, ctx: &Ctx) -> Vec<Case> {
+        let mut rng = Rng::new(ctx.seed ^ 0x6c697374);
+        let cfgs = configs();
+        let mut cases = Vec::new();
+        if ctx.prop == "C15" {
+            // configuration x history matrix of the property
+            for idle in [1usize, 2] {
+                cases.push(timing_case(idle, None, 1, 4, &[], "no-connection"));
+                cases.push(timing_case(idle, Some(60_000), 1, 4, &[], "no-connection-flag-never-set"));
+                cases.push(timing_case(idle, None, 1, 4, &[(350, 100)], "short-connection"));
+                cases.push(timing_case(idle, Some(60_000), 2, 4, &[(350, 100)], "short-connection-sliced"));
+                cases.push(timing_case(idle, None, 1, 4, &[(350, idle * 1000 + 450)], "long-lived-across-deadline"));
+                cases.push(timing_case(idle, None, 1, 4, &[(idle * 1000 - 250, 100)], "arriving-just-before-deadline"));
+                cases.push(timing_case(idle, None, 1, 4, &[(350, idle * 1000 - 20)], "closing-at-the-deadline"));
+                cases.push(timing_case(idle, Some(450), 1, 4, &[(150, 1200)], "flag-set-while-connection-open"));
+            }
+            cases.push(timing_case(0, Some(450), 1, 4, &[], "flag-only"));
+            cases.push(timing_case(0, Some(0), 1, 4, &[], "flag-set-before-start"));
+            cases.push(timing_case(2, Some(450), 1, 4, &[], "flag-before-timeout"));
+            cases.push(timing_case(1, None, 1, 1, &[(100, 600), (200, 100)], "queued-behind-max"));
+            let steady: Vec<(usize, usize)> = (0..40).map(|i| (30 + i * 40, 20)).collect();
+            cases.push(timing_case(0, Some(450), 1, 8, &steady, "flag-under-steady-arrivals"));
+            cases.push(timing_case(1, Some(850), 2, 8, &steady, "flag-under-steady-arrivals-with-idle"));
+            if ctx.thorough {
+                for _ in 0..12 {
+                    let idle = rng.range(1, 2);
+                    let n = rng.range(0, 3);
+                    let conns: Vec<(usize, usize)> = (0..n).map(|_| (50 + 100 * rng.below(12), 30 + 100 * rng.below(15))).collect();
+                    let stop = if rng.chance(1, 2) { Some(50 + 100 * rng.below(20)) } else { None };
+                    cases.push(timing_case(idle, stop, rng.range(1, 2), rng.range(1, 4), &conns, "random"));
+                }
+            }
+            return cases;
+        }
+        let mut tok = 0usize;
+        let n = if ctx.thorough { 160 } else { 28 };
+        for i in 0..n {
+            let transport = ["unix", "tcp", "abstract"][i % 3];
+            let nclients = match rng.below(10) {
+                0 => 1,
+                1..=5 => rng.range(2, 4),
+                6..=8 => rng.range(5, 16),
+                _ => rng.range(17, if ctx.thorough { 64 } else { 32 }),
+            };
+            cases.push(gen_conc(&mut rng, &cfgs, &mut tok, nclients, transport));
+        }
+        cases
+    }
+
+    fn run(&self, _ctx: &Ctx, input: &Sx) -> Sx {
+        let l = input.as_list().expect("case");
+        match l[0].as_atom().unwrap() {
+            "listen-conc" => run_conc(l),
+            "listen-timing" => run_timing(l),
+            other => panic!("case kind {}", other),
+        }
     }
 }
